@@ -412,6 +412,87 @@ pub fn run(tier: &str) -> ! {
     });
     rep.acc.merge(acc);
     rep.extra("signature_alphabet", show(&sig_alpha));
+    // multi-code-point grapheme clusters: every constructor must treat a text exactly like the same
+    // text with every cluster cut down to its first code point (the documented reduction), whatever
+    // branch (ASCII / non-ASCII, escapes on / off) the text takes
+    {
+        let tokens: Vec<&str> = vec!["a", "B", "é", " ", "\\", "$", "^", "!", "'", "e\u{301}", "\u{915}\u{93e}", "\u{1f469}\u{200d}\u{1f469}", "\u{1f1e9}\u{1f1ea}", "\u{1100}\u{1161}", "o\u{308}\u{301}"];
+        let len = if rep.is_thorough() { 4 } else { 3 };
+        let total_c = count_strings(tokens.len(), len);
+        let shards_c = ((total_c + chunk - 1) / chunk) as usize;
+        let idx_alpha: Vec<char> = (0..tokens.len() as u32).map(|i| char::from_u32(0x41 + i).unwrap()).collect();
+        // compared through their Debug form: negation, kind, needle text, case and normalisation flags
+        // (the ASCII and the code-point representation of the same needle text are the same atom)
+        fn dbg<T: std::fmt::Debug>(t: &T) -> String {
+            format!("{t:?}")
+        }
+        let acc = par_shards(shards_c, threads(), |shard, acc| {
+            use unicode_segmentation::UnicodeSegmentation;
+            let mut buf = Vec::new();
+            let lo = shard as u64 * chunk;
+            for i in lo..(lo + chunk).min(total_c) {
+                decode(i, &idx_alpha, &mut buf);
+                let text: String = buf.iter().map(|c| tokens[(*c as u32 - 0x41) as usize]).collect();
+                let reduced: String = text.graphemes(true).map(|g| if g == "\r\n" { '\n' } else { g.chars().next().unwrap() }).collect();
+                if reduced == text {
+                    continue;
+                }
+                // the reduced text must itself consist of single-code-point clusters (two regional
+                // indicators or two leading jamo left over from two clusters would cluster again)
+                if reduced.graphemes(true).any(|g| g.chars().count() > 1) {
+                    continue;
+                }
+                acc.count("cluster_texts", 1);
+                acc.states += 1;
+                acc.nontrivial += 1;
+                let r = std::panic::catch_unwind(std::panic::AssertUnwindSafe(|| {
+                    let mut bad: Vec<&'static str> = Vec::new();
+                    for case in [CaseMatching::Smart, CaseMatching::Ignore, CaseMatching::Respect] {
+                        for norm in [Normalization::Smart, Normalization::Never] {
+                            if dbg(&Pattern::parse(&text, case, norm).atoms) != dbg(&Pattern::parse(&reduced, case, norm).atoms) {
+                                bad.push("Pattern::parse");
+                            }
+                            if dbg(&Pattern::new(&text, case, norm, AtomKind::Fuzzy).atoms) != dbg(&Pattern::new(&reduced, case, norm, AtomKind::Fuzzy).atoms) {
+                                bad.push("Pattern::new");
+                            }
+                            let mut p1 = Pattern::parse("x", case, norm);
+                            p1.reparse(&text, case, norm);
+                            let mut p2 = Pattern::parse("x", case, norm);
+                            p2.reparse(&reduced, case, norm);
+                            if dbg(&p1.atoms) != dbg(&p2.atoms) {
+                                bad.push("Pattern::reparse");
+                            }
+                            if !text.contains(' ') {
+                                if dbg(&Atom::parse(&text, case, norm)) != dbg(&Atom::parse(&reduced, case, norm)) {
+                                    bad.push("Atom::parse");
+                                }
+                                for esc in [true, false] {
+                                    if dbg(&Atom::new(&text, case, norm, AtomKind::Substring, esc)) != dbg(&Atom::new(&reduced, case, norm, AtomKind::Substring, esc)) {
+                                        bad.push(if esc { "Atom::new(escape_whitespace)" } else { "Atom::new" });
+                                    }
+                                }
+                            }
+                        }
+                    }
+                    bad.sort();
+                    bad.dedup();
+                    bad
+                }));
+                acc.transitions += 30;
+                match r {
+                    Ok(bad) => {
+                        for b in bad {
+                            acc.violation(&format!("C14/{b}/cluster_tail_kept"), "a text with multi-code-point grapheme clusters is not parsed like the same text reduced to the first code point of every cluster", || {
+                                json!({"text": show(&text.chars().collect::<Vec<_>>()), "reduced": show(&reduced.chars().collect::<Vec<_>>()), "constructor": b})
+                            });
+                        }
+                    }
+                    Err(_) => acc.violation("C14/panic", "a pattern constructor panicked", || json!({"text": show(&text.chars().collect::<Vec<_>>())})),
+                }
+            }
+        });
+        rep.acc.merge(acc);
+    }
     let total_lit = count_strings(LIT.len(), lit_len);
     let shards = ((total_lit + chunk - 1) / chunk) as usize;
     let acc = par_shards(shards, threads(), |shard, acc| {
@@ -453,7 +534,7 @@ pub fn run(tier: &str) -> ! {
     rep.assumptions = vec![
         "the two private flags of an atom are read from its derived Debug output".into(),
         "upper case = has a simple case folding (chars::is_upper_case), normalised = chars::normalize(c) != c; their correctness is C16".into(),
-        "combining marks are outside the alphabet (needles are documented to be truncated to the first code point of each grapheme)".into(),
+        "in the main enumeration combining marks are outside the alphabet (needles are documented to be truncated to the first code point of each grapheme); the cluster family checks that reduction itself against unicode-segmentation".into(),
         "where the statement is silent (quote prefix combined with a dollar suffix gives Exact; a doubled backslash before a space still escapes it) the reference follows the behaviour on ASCII text, so the check demands one grammar, not a particular one".into(),
     ];
     rep.finish()
